@@ -194,7 +194,10 @@ class EnvSpec:
                     and abi_impl.endswith("t") is not free_threaded
                 ):
                     return None
-            if major and minor:
+            if major and minor and impl == "py":
+                # a generic pyXY wheel runs on X.Y and every later minor of major X
+                wheel_range = parse_version_specifier(f">={major}.{minor},=={major}.*")
+            elif major and minor:
                 wheel_range = parse_version_specifier(f"=={major}.{minor}.*")
             else:
                 wheel_range = parse_version_specifier(f"=={major}.*")
